@@ -26,3 +26,38 @@ reg("C14", "tsx",
     "deque model: every history of read/peek/write/clear calls of every length is covered for these configurations, "
     "readiness and data checked on every transition.",
     "explicit-state BFS of the real elaborated circuit against a deque reference model")
+
+reg("C15", "tsx",
+    "Complete reachability analysis of WideFifo for a grid of (depth, read_width, write_width, write_max_count) in lock-step "
+    "with a deque model: every history of read(count)/peek/write(count,data[,max_count])/clear of every length for these "
+    "configurations; returned counts/elements, readiness and the fits-check are compared on every transition.",
+    "explicit-state BFS of the real elaborated circuit against a deque reference model")
+reg("C16", "tsx",
+    "Complete reachability analysis of Stack (depth 1-5 quick, 1-8 thorough, power of two or not) against a list model; "
+    "every valuation of read/peek/write/clear in every reachable state.",
+    "explicit-state BFS of the real elaborated circuit against a list reference model")
+reg("C17", "tsx",
+    "Complete reachability analysis of Forwarder and Pipe (1-3 bit payload, full input alphabet) against an optional-slot "
+    "model with the readiness clauses of the statement; all histories of all lengths.",
+    "explicit-state BFS of the real elaborated circuit against a one-slot reference model")
+reg("C20", "tsx",
+    "Complete reachability analysis of Semaphore for max_count up to 5 (16 thorough) against an integer model, internal "
+    "count compared in every state.",
+    "explicit-state BFS of the real elaborated circuit against an integer reference model")
+reg("C24", "tsx",
+    "Complete reachability analysis of ContentAddressableMemory (1-3 entries, 1-2 bit keys and data) against a dict model "
+    "with all four methods free to run in the same cycle on pre-state semantics.",
+    "explicit-state BFS of the real elaborated circuit against a dict reference model")
+reg("C25", "tsx",
+    "Complete reachability analysis of PriorityEncoderAllocator over (entries, alloc_ways, free_ways, init) against a "
+    "free-mask model; returned identifiers are checked free and pairwise distinct on every transition.",
+    "explicit-state BFS of the real elaborated circuit against a free-mask reference model")
+reg("C26", "tsx",
+    "Complete reachability analysis of PreservedOrderAllocator (1-4 entries, 5 thorough) against an ordered-list model; "
+    "order() is read and checked (permutation, prefix = allocation order) in every cycle.",
+    "explicit-state BFS of the real elaborated circuit against an ordered-list reference model")
+reg("C27", "tsx",
+    "Complete reachability analysis of CircularAllocator over (entries, max_alloc, max_free, validation on/off) against a "
+    "ring model; returned identifiers, new indices, the allocated count and acceptance of overflowing calls are checked on "
+    "every transition.",
+    "explicit-state BFS of the real elaborated circuit against a ring reference model")
